@@ -253,7 +253,7 @@ func c11Oracle(ctx *vk.Ctx, c c11Case) error {
 }
 
 func c11Draw(rt *rapid.T) c11Case {
-	if rapid.IntRange(0, 99).Draw(rt, "source") < 45 {
+	if c11Uniform(rt, 100, "source") < 45 {
 		return c11DrawMutant(rt)
 	}
 	return c11DrawGram(rt)
